@@ -1,5 +1,6 @@
 from __future__ import annotations
 
+from copy import deepcopy
 import random
 import re
 import string
@@ -222,8 +223,10 @@ class SigmaFilter(SigmaRuleBase):
         prefix = "_filt_" + "".join(random.choices(string.ascii_lowercase, k=10))
 
         # Rename every filter detection identifier with the shared prefix.
+        # Each rule gets its own copy of the filter detections: processing pipelines change
+        # detection items in place and must not see the changes made for a previously converted rule.
         for original_cond_name, condition in self.filter.detections.items():
-            rule.detection.detections[prefix + "_" + original_cond_name] = condition
+            rule.detection.detections[prefix + "_" + original_cond_name] = deepcopy(condition)
 
         # Rewrite the filter condition string so that every identifier/pattern token is
         # prefixed.  This handles:
